@@ -20,7 +20,7 @@ RULE = (
     "(a) state_k (deep copy taken inside the callback) vs the result of a fresh run with maxiter=k, bitwise on x, fun, jac, nfev, njev, nit, sk, yk; (b) the retained live state and xk are "
     "unchanged when the run ends; (c) run with a False-returning callback vs run without callback, bitwise on result and evaluation log; (d) the objective raises at a drawn later call "
     "(crash), the harness restarts from the last retained state and compares the next iterate with the uninterrupted run. non-trivial = k>=2 and the state holds >=1 pair (for (d): the crash "
-    "falls inside a line search); plus a dedicated generator in which the uninterrupted run and the restart share a maxfun only 1..4 evaluations above the count at the crash point (hard line-search families), so that the evaluation budget binds inside the next line search; distinct = distinct (run spec, k)"
+    "falls inside a line search); plus a dedicated generator in which the uninterrupted run and the restart share a maxfun only 1..4 evaluations above the count at the crash point (hard line-search families), so that the evaluation budget binds inside the next line search; and a generator with maxls 1..3, maxcor 1..3 on hard families so that line searches fail, the memory is reset in mid-run, refilled and overflows again before the crash point; distinct = distinct (run spec, k)"
 )
 ASSUMPTIONS = [
     "a crash is modelled by an exception raised from the user's objective at a later call; the process state the user keeps is the last callback state object itself (not a copy)",
@@ -34,9 +34,13 @@ def check(spec, stats=None):
     cfg = dict(rspec["cfg"])
     K = cfg["maxiter"]
     mode = rspec.get("jac", "callable")
-    full = run_min(prob, cfg, callback="passive", jac_mode=mode)
+    from vf.props.c03 import watch_linesearch
+
+    with watch_linesearch(None) as lslog:
+        full = run_min(prob, cfg, callback="passive", jac_mode=mode)
     if full.exc is not None:
         raise full.exc
+    ls_failed = sum(1 for e in lslog if e["ret"] is None)
     # (c) callback presence does not alter the run
     plain = run_min(prob, cfg, jac_mode=mode)
     if plain.exc is not None:
@@ -121,7 +125,8 @@ def check(spec, stats=None):
                         f"the uninterrupted run goes from njev={ref0.res['njev']} to {ref1.res['njev']} with the same number of evaluations")
         if stats is not None:
             mid_ls = off >= 1
-            stats.case({"run": rspec, "crash": [i, off]}, kk >= 1 and mid_ls, ["kind=crash-restart", f"mid_linesearch={mid_ls}"],
+            stats.case({"run": rspec, "crash": [i, off]}, kk >= 1 and mid_ls, ["kind=crash-restart", f"mid_linesearch={mid_ls}", f"line_search_failures_in_run={min(ls_failed, 2)}",
+                                                                            f"restart_after_memory_reset={bool(ls_failed) and kept['snap']['sk'].shape[0] < min(kk, cfg['maxcor'])}"],
                        sample={"family": rspec["problem"]["obj"]["family"], "crash_at_objective_call": j, "restart_from_nit": kk})
     if stats is not None and ncb == 0:
         stats.case({"run": rspec}, False, ["no-callback-fired"])
@@ -195,8 +200,20 @@ def strategy(draw):
     return {"run": r, "all_k": True, "crashes": crashes}
 
 
+@st.composite
+def reboot_strategy(draw):
+    """Runs in which line searches fail (maxls 1..3 on hard families), so that the solver resets its memory in mid-run and
+    refills it, with a small maxcor so that the refilled memory overflows again before the crash point."""
+    r = draw(run_spec(families=("rosenbrock", "badscale", "sines", "bench", "qp_softplus", "qp_quartic", "badscale"), n_max=6, jac_modes=("callable",), maxiter=(8, 30), maxfun=(600, 600),
+                      ftols=(0.0,), gtols=(1e-10,), maxcor_max=3, narrow=draw(st.booleans())))
+    r["cfg"]["maxls"] = draw(st.sampled_from([1, 2, 2, 3]))
+    crashes = draw(st.lists(st.tuples(st.integers(3, 29), st.integers(0, 2)), min_size=2, max_size=4))
+    return {"run": r, "all_k": False, "ks": [c[0] for c in crashes], "crashes": crashes}
+
+
 def shard(ctx):
     ctx.hyp("crash-points", strategy(), check, ctx.pick(2500, 15000))
+    ctx.hyp("crash-after-memory-reset", reboot_strategy(), check, ctx.pick(1500, 15000))
     ctx.hyp("crash-with-tight-budget", tight_budget_strategy(), check_tight_budget, ctx.pick(3000, 40000))
 
 
